@@ -34,6 +34,9 @@ def plan(which, rng, thorough=True):
             for storm in (1, 0):
                 runs.append(["udp", str(rng.randrange(1, 10**6)), str(fam), str(storm)])
             runs.append(["gone", str(fam)])
+    elif which == "C10" and not thorough:
+        # quick tier: descriptor flags and the closed state on the real kernel, after accepts that failed for a real reason (< 1 s)
+        runs += [["flags", "4"], ["flags", "6"]]
     else:
         for fam in (4, 6):
             runs.append(["flags", str(fam)])
